@@ -252,9 +252,69 @@ def epics_model_diff(rng, n, drv, res):
             elif e[0] == "set" and (e[1] != owner or e[3] != owner):
                 res.violate(V("adapter-influenced-by-unconnected-part", f"record {e[5]} of adapter {e[3:5]} set by adapter {e[1:3]} during the update of {owner}", site="EpicsAdapter.after_update"), {"epics_model": c})
 
+def system_adapter_scenarios():
+    P = 4_000_000
+    inner = lambda: [dev("in1", {"i": ["external", "x"]}), dev("q")]
+    one = {"components": [dev("src", cb={"kind": "period", "p": P}),
+                          {"name": "asys", "kind": "sys", "sys_adapter": True, "inputs": {"x": ["src", "o"]}, "expose": {"y": ["in1", "o"]}, "components": inner()},
+                          dev("sink", {"i": ["asys", "y"]})],
+           "n_ticks": 5, "stims": [{"real": 6_000_000, "comp": "asys"}, {"real": 7_000_000, "comp": "q"}, {"real": 9_000_000, "comp": "asys"}]}
+    two = {"components": [{"name": "outer", "kind": "sys", "sys_adapter": True, "inputs": {}, "expose": {"y": ["inner", "z"]}, "components": [
+        {"name": "inner", "kind": "sys", "sys_adapter": True, "inputs": {"x": ["p", "o"]}, "expose": {"z": ["d", "o"]}, "components": [dev("d", {"i": ["external", "x"]})]},
+        dev("p", cb={"kind": "period", "p": P})]},
+        {"name": "plain", "kind": "sys", "inputs": {}, "expose": {}, "components": [dev("pq", cb={"kind": "period", "p": 3 * P})]},
+        dev("sink", {"i": ["outer", "y"]})],
+        "n_ticks": 5, "stims": [{"real": 5_000_000, "comp": "inner"}, {"real": 6_000_000, "comp": "outer"}]}
+    return [one, two]
+
+
+def system_adapter_part(res, drv, seed):
+    """adapters on SYSTEM simulations (BaseSystemSimulationAdapter, at depth 1 and 2, next to a system without one): each is
+    handed its own system's inner components and wiring - nobody else's - before its io is set up, its io serves for the
+    whole run, and an interrupt raised through it makes the master tick that system (and nothing it does not feed)"""
+    for si, scn in enumerate(system_adapter_scenarios()):
+        inv = S.level_inverse(scn)
+        adapted = [c for c, _, _ in S.walk(scn["components"]) if c["kind"] == "sys" and c.get("sys_adapter")]
+        par = S.parent_map(scn)
+        for b in ("sync", "held", "internal"):
+            r = run_scenario(scn, bus=b, seed=seed)
+            case = {"scenario": scn, "bus": b, "held_seed": seed, "system_adapter": True}
+            res.case(f"system-adapter:{si}:{b}", nontrivial=True)
+            res.count("system-adapter-runs")
+            if SC.check_run(scn, r, drv, res, monitors_on=("adapters", "ticker"), corr=("ticker",), case_extra=case):
+                continue
+            tr = r["trace"]
+            for c in adapted:
+                evs = [e for e in tr.of("sys-adapter-setup") if e["comp"] == c["name"]]
+                want_comps = sorted(k["name"] for k in c["components"])
+                want_conns = sorted(f"{src[0]}:{src[1]}>{t}:{q}" for t, ports in inv[c["name"]].items() for q, src in ports.items())
+                if len(evs) != 1:
+                    res.violate(V("system-adapter-not-run", f"the io of the adapter of system {c['name']} was set up {len(evs)} times", site="SystemComponent.run_forever", comp=c["name"]), case)
+                    continue
+                if evs[0]["components"] != want_comps or evs[0]["conns"] != want_conns:
+                    res.violate(V("system-adapter-wrong-view", f"the adapter of system {c['name']} was handed components {evs[0]['components']} and wiring {evs[0]['conns']}; "
+                                  f"its system consists of {want_comps} wired {want_conns}", site="SystemComponent.run_forever", comp=c["name"]), case)
+                if [e for e in tr.of("io-cancelled") if e["comp"] == c["name"]]:
+                    res.violate(V("adapter-io-cancelled", f"the io of the adapter of system {c['name']} was shut down while the simulation was running", site="SystemComponent", comp=c["name"]), case)
+            mt = monitors.master_tid(r)
+            calls = [e for e in tr.of("t-call") if e["tid"] == mt]
+            for R in tr.of("raise"):
+                if not R.get("ok"):
+                    res.violate(V("system-adapter-not-run", f"no raise_interrupt was handed to the adapter io of {R['comp']}", site="SystemComponent.run_forever", comp=R["comp"]), case)
+                    continue
+                top = R["comp"]
+                while par.get(top):
+                    top = par[top]
+                served = [e for e in calls if e["n"] > R["n"] and top in e["roots"]]
+                if not served:
+                    res.violate(V("interrupt-lost", f"{R['comp']} raised an interrupt at real={R['real']} and {top} was never a root of a master tick afterwards",
+                                  comp=R["comp"], phase="system-adapter"), case)
+
+
 def run(tier, seed, drv):
     res = Result()
     rng = random.Random(seed)
+    system_adapter_part(res, drv, seed)
     for bi, scn in enumerate(bases(rng, tier)):
         base_devs = {d["name"] for d in S.devices(scn)}
         for b in scn.get("only_buses", ("sync", "held")):
@@ -324,6 +384,8 @@ def run(tier, seed, drv):
             res.violate(V("adapter-influenced-by-unconnected-part", f"EPICS records of 'alpha' alone {base} vs with {names[1:]} present {ext}", site="EpicsIo.setup", extension="epics-io"), case)
         for n in names:
             got = out["out"]["ext"][n]
+            if got.get("interrupt") != [n]:
+                res.violate(V("adapter-interrupt-misrouted", f"the interrupt of the EPICS adapter of {n} (set by EpicsIo.setup) produced {got.get('interrupt')} instead of one Interrupt of {n}", site="EpicsIo.setup", extension="epics-io"), case)
             if list(got["records"]) != [f"{n.upper()}:VALUE"] or got["notified"] != 1:
                 res.violate(V("adapter-influenced-by-unconnected-part", f"EPICS adapter of {n}: records {got['records']}, notified {got['notified']}", site="EpicsIo.setup", extension="epics-io"), case)
     res.rule = ("bases: flat pair with EPICS adapters, source->system->sink with an EPICS sink, generated nestings; each extended by: a periodic device, a "
@@ -338,6 +400,9 @@ def run(tier, seed, drv):
 def replay(payload, drv):
     c = payload["case"]
     res = Result()
+    if c.get("system_adapter"):
+        system_adapter_part(res, drv, c.get("held_seed", 0))
+        return {"violations": [v["record"] for v in res.violations], "divergences": res.divergences[:3]}
     re_ = run_scenario(c["scenario"], bus=c.get("bus", "sync"), seed=c.get("held_seed", 0))
     SC.check_run(c["scenario"], re_, drv, res, monitors_on=("adapters", "ticker"), corr=("ticker",))
     return {"violations": [v["record"] for v in res.violations], "divergences": res.divergences[:3]}
